@@ -163,6 +163,10 @@ def live_parent(sc):
     return {g: (None if n.parent is None else sc.gid[id(n.parent)]) for g, n in sc.node.items()}
 
 
+class Runaway(BaseException):
+    pass
+
+
 class Instr:
     """wrappers that call the originals and only record"""
 
@@ -182,6 +186,8 @@ class Instr:
 
         def on_run(self_, *a, **k):
             me.exec_log.append(me.sc.gid.get(id(self_), -1))
+            if len(me.exec_log) > 400:
+                raise Runaway()  # backstop: a signal cycle would keep the real scheduler busy for ever
             return me.o_on_run(self_, *a, **k)
 
         def tree(node):
@@ -309,7 +315,7 @@ def run_impl(case):
             with Instr(sc) as ins:
                 try:
                     ret = sc.node[t].pull(run_parent_trees_too=bool(parents))
-                except Exception as e:  # noqa: BLE001
+                except (Exception, Runaway) as e:  # noqa: BLE001
                     err = e
             rec = {
                 "t": t,
@@ -635,7 +641,7 @@ def gen_scene(rng, max_leaf=4, clean=None, fault=None):
             srcs = [(g, "true" if tr else "false") for g, tr in meta["ifs"].items()]
             srcs += [(g, "failed") for g in case["fails"] if g in meta["leaves"]]
             for a, chn in srcs:
-                others = [h for h in meta["hidden"] if h != a]
+                others = meta["hidden"][meta["hidden"].index(a) + 1:]  # forward only: no signal cycles
                 if others and rng.random() < 0.6:
                     post["signals"].append(["sig", a, chn, rng.choice(others),
                                             rng.choice(["run", "run", "accumulate_and_run"])])
